@@ -68,13 +68,17 @@ int c_var2h(int nvalvar, int nvalh,
         return VAR2H_ERROR + __LINE__;
     }
 
-    /* hstart is not smaller than the last value in varsec */
-    if(varindex+1>=nvalvar)
-        return VAR2H_ERROR + __LINE__;
-
     /* Initialisation */
     nan = zero/zero;
     ierr = 0;
+
+    /* hstart is not smaller than the last value in varsec:
+     * all periods are missing */
+    if(varindex+1>=nvalvar)
+    {
+        for(i=0; i<nvalh-1; i++) hvalues[i] = nan;
+        return 0;
+    }
 
     /* Loop through instantaneous data */
     for(i=0; i<nvalh-1; i++)
